@@ -1,6 +1,7 @@
 //! vp-net: monitors of the TCP listener over real loopback sockets and real time
 //! (properties C14 C15 C16 C17).
 
+mod c03net;
 mod c08net;
 mod c14;
 mod c15;
@@ -64,6 +65,8 @@ fn main() {
             }
             // C08 at the listener: segmentation of the client's byte stream incl. the PROXY header
             "C08" => c08net::run_prop(&cli).await,
+            // C03 through the application: the configured localization decides the refusal text
+            "C03" => c03net::run_prop(&cli).await,
             // C04 through the application wiring: frames around the configured maximum via passage::start
             "C04" => {
                 let mut report = vp_common::Report::new(&cli, "exploration", "listener-level part of C04: Status Request frames padded to max / max+1 / max+12 / 10×max against listeners started through passage::start from Config values and config files; distinct = (listener configuration, declared length)");
